@@ -33,6 +33,7 @@ import (
 	"path/filepath"
 	"reflect"
 	"regexp"
+	"runtime/debug"
 	"sort"
 	"strings"
 	"sync"
@@ -72,6 +73,9 @@ func globals() []gvar {
 		{"op", op.VerifC20Vars()}, {"oidc", oidc.VerifC20Vars()}, {"httphelper", httphelper.VerifC20Vars()},
 		{"client", client.VerifC20Vars()}, {"rp", rp.VerifC20Vars()}, {"rs", rs.VerifC20Vars()},
 		{"tokenexchange", tokenexchange.VerifC20Vars()}, {"crypto", crypto.VerifC20Vars()},
+		// profile.NewJWTProfileTokenSource* default to the standard library's http.DefaultClient: the
+		// variable is not the repository's, but the library hands it to its HTTP helpers
+		{"std", map[string]any{"http.DefaultClient": &http.DefaultClient}},
 	}
 	var out []gvar
 	httpClientPP := reflect.TypeOf((**http.Client)(nil))
@@ -93,6 +97,7 @@ type rootDigests map[string]map[string]string
 type stats struct {
 	Skipped map[string]int
 	Guarded map[string]int
+	Walked  map[string]int
 }
 
 func (s *stats) merge(d *world.Digest) {
@@ -102,13 +107,18 @@ func (s *stats) merge(d *world.Digest) {
 	for k, v := range d.GTypes {
 		s.Guarded[k] += v
 	}
+	for k, v := range d.Walked {
+		s.Walked[k] += v
+	}
 }
 
 // ---------------------------------------------------------------------------
 // the child: executes sequences
 
 type request struct {
-	Oracle string   `json:"oracle"` // frame | diff | baseline | info
+	// frame | diff | baseline | info | both (= frame, then diff, on ONE execution; only when a single step -
+	// the last - is judged, so that the behaviour probes of the diff oracle cannot precede a judged step)
+	Oracle string   `json:"oracle"`
 	Seq    []string `json:"seq"`
 	Known  []string `json:"known,omitempty"` // signatures listed as known: must not shadow another finding of the same step
 	// CheckFrom: steps (0 = base world, i = i-th operation) before this one are replayed
@@ -119,9 +129,11 @@ type request struct {
 
 type reply struct {
 	Rule, Outcome, Sig, Detail string
-	RestoreFailed              bool           `json:",omitempty"`
-	Err                        string         `json:",omitempty"`
-	Info                       map[string]any `json:",omitempty"`
+	// Other: oracle "both" only - the verdict of the diff oracle (this reply is the frame oracle's)
+	Other         *reply         `json:",omitempty"`
+	RestoreFailed bool           `json:",omitempty"`
+	Err           string         `json:",omitempty"`
+	Info          map[string]any `json:",omitempty"`
 }
 
 type server struct {
@@ -218,6 +230,7 @@ func (ck *checker) digestOneInst(i *world.Inst, stop map[unsafe.Pointer]string, 
 		}
 	}
 	d.Stop = own
+	d.SyncGuarded = true // a sync.Map / atomic box inside an instance is synchronised state of that instance
 	d.Root("inst:"+i.Name, &i.Obj)
 	ck.s.st.merge(d)
 	if ck.once == nil {
@@ -443,18 +456,29 @@ func (s *server) runInBubble(req request) reply {
 		}
 		ck.harnessStorage(f)
 	}}
-	if req.Oracle == "frame" {
+	doFrame := req.Oracle == "frame" || req.Oracle == "both"
+	if req.Oracle == "both" && (req.CheckFrom != len(req.Seq) || len(req.Seq) == 0) {
+		return reply{Err: "oracle both needs check_from = len(seq) >= 1"}
+	}
+	// judging: false while the unjudged prefix of the sequence is replayed (check_from > 0): the
+	// digests taken at the first judged step (ck.baseline) cover every object that exists by then
+	judging := req.CheckFrom == 0
+	var supplied []*world.Supplied
+	var insts []*world.Inst
+	if doFrame {
 		// every object is digested when it comes into existence: a caller-supplied object
 		// before the library sees it, an instance as soon as its constructor has returned
-		var supplied []*world.Supplied
 		hooks.OnSupply = func(su *world.Supplied) {
 			supplied = append(supplied, su)
-			ck.supplied[su.Name] = ck.digestOneSupplied(su)
+			if judging {
+				ck.supplied[su.Name] = ck.digestOneSupplied(su)
+			}
 		}
-		var insts []*world.Inst
 		hooks.OnAdd = func(i *world.Inst) {
 			insts = append(insts, i)
-			ck.inst[i.Name] = ck.digestOneInst(i, ck.stopSet(supplied), insts)
+			if judging {
+				ck.inst[i.Name] = ck.digestOneInst(i, ck.stopSet(supplied), insts)
+			}
 		}
 	}
 	if p := engine.Safe(func() { w = world.Build(hooks) }); p != "" {
@@ -505,13 +529,14 @@ func (s *server) runInBubble(req request) reply {
 			}
 		}
 	}
+	var o *world.Op
 	for idx, name := range req.Seq {
 		step := idx + 1
-		if step == req.CheckFrom && req.Oracle == "frame" {
+		if step == req.CheckFrom && doFrame {
 			ck.baseline() // the state before the first judged step
+			judging = true
 		}
-		o := world.OpByName(name)
-		if o == nil {
+		if o = world.OpByName(name); o == nil {
 			return reply{Err: "unknown operation " + name}
 		}
 		rule = req.Oracle + "/" + o.Kind
@@ -534,6 +559,23 @@ func (s *server) runInBubble(req request) reply {
 	}
 	if req.Oracle == "baseline" {
 		return reply{Rule: "effective-in-fresh-history", Outcome: last}
+	}
+	if req.Oracle == "both" { // exactly the last step is judged: first the frame (digests), then the behaviour probes
+		held := func(orc string) reply {
+			return reply{Rule: orc + "/" + o.Kind, Outcome: "held:last-op-" + outcomeClass(last)}
+		}
+		fr, dr := held("frame"), held("diff")
+		if f := ck.frame(); len(f) > 0 {
+			fr = mk("frame/"+o.Kind, o.Entry, f)
+		}
+		if f := ck.differential(); len(f) > 0 {
+			dr = mk("diff/"+o.Kind, o.Entry, f)
+		}
+		if fr.Err != "" || dr.Err != "" {
+			return reply{Err: fr.Err + dr.Err}
+		}
+		fr.Other = &dr
+		return fr
 	}
 	return reply{Rule: rule, Outcome: "held:last-op-" + outcomeClass(last)}
 }
@@ -580,8 +622,9 @@ func TestServe(t *testing.T) {
 	if os.Getenv("C20_SERVE") == "" {
 		t.Skip("worker mode only")
 	}
+	debug.SetGCPercent(400) // a sequence allocates a whole world and drops it: fewer collections, small heap anyway
 	world.Install()
-	s := &server{t: t, gv: globals(), st: stats{Skipped: map[string]int{}, Guarded: map[string]int{}}}
+	s := &server{t: t, gv: globals(), st: stats{Skipped: map[string]int{}, Guarded: map[string]int{}, Walked: map[string]int{}}}
 	for _, g := range s.gv {
 		s.snaps = append(s.snaps, world.TakeSnap(g.ptr))
 	}
@@ -610,12 +653,20 @@ func TestServe(t *testing.T) {
 			send(reply{Err: "bad request: " + err.Error()})
 			continue
 		}
+		if req.Oracle == "ops" { // diagnosis: the alphabet
+			var ns []string
+			for _, o := range world.Ops {
+				ns = append(ns, o.Name)
+			}
+			send(reply{Info: map[string]any{"ops": ns}})
+			continue
+		}
 		if req.Oracle == "info" {
 			perPkg := map[string]int{}
 			for _, g := range s.gv {
 				perPkg[strings.SplitN(strings.TrimPrefix(g.root, "global:"), ".", 2)[0]]++
 			}
-			send(reply{Info: map[string]any{"package_level_variables_tracked": perPkg, "not_walked_types": s.st.Skipped,
+			send(reply{Info: map[string]any{"package_level_variables_tracked": perPkg, "not_walked_types": s.st.Skipped, "sync_containers_walked": s.st.Walked,
 				"mutex_guarded_struct_types_not_compared": s.st.Guarded, "restores_verified": s.restores,
 				"digest_leaves_of_package_level_state": len(s.pristine)}})
 			continue
@@ -755,10 +806,10 @@ func evaluator(c *engine.Check) func(request) reply {
 }
 
 var info = struct {
-	skipped, guarded map[string]int
-	restores, kids   int
-	vars, leaves     any
-}{skipped: map[string]int{}, guarded: map[string]int{}}
+	skipped, guarded, walked map[string]int
+	restores, kids           int
+	vars, leaves             any
+}{skipped: map[string]int{}, guarded: map[string]int{}, walked: map[string]int{}}
 
 // harvest merges the bookkeeping of every live worker child into info and stops
 // the children (called after each part; the next part starts fresh processes).
@@ -780,6 +831,7 @@ func harvest() {
 		if r, err := ch.eval(request{Oracle: "info"}); err == nil && r.Info != nil {
 			sum(info.skipped, r.Info["not_walked_types"])
 			sum(info.guarded, r.Info["mutex_guarded_struct_types_not_compared"])
+			sum(info.walked, r.Info["sync_containers_walked"])
 			if f, ok := r.Info["restores_verified"].(float64); ok {
 				info.restores += int(f)
 			}
@@ -796,6 +848,7 @@ func collectInfo(ops []string) map[string]any {
 		"package_level_variables_tracked":               info.vars,
 		"digest_leaves_of_package_level_state":          info.leaves,
 		"not_walked_types":                              info.skipped,
+		"sync_containers_walked":                        info.walked,
 		"mutex_guarded_struct_types_not_compared":       info.guarded,
 		"restores_verified":                             info.restores,
 		"worker_children":                               info.kids,
@@ -871,7 +924,24 @@ func TestCheck(t *testing.T) {
 	var vmu sync.Mutex
 	violated := map[string]bool{}
 	key := func(oracle string, seq []string) string { return oracle + "|" + strings.Join(seq, "\x00") }
-	var pruned int64
+	var pruned, executions int64
+	// verdicts of the other oracle of a shared execution, consumed once
+	var smu sync.Mutex
+	shared := map[string]reply{}
+	takeShared := func(k string) (reply, bool) {
+		smu.Lock()
+		defer smu.Unlock()
+		r, ok := shared[k]
+		if ok {
+			delete(shared, k)
+		}
+		return r, ok
+	}
+	putShared := func(k string, r reply) {
+		smu.Lock()
+		shared[k] = r
+		smu.Unlock()
+	}
 	ops := names[1:]
 	for L := 0; L <= depth; L++ {
 		space := engine.Space{engine.D("oracle", "frame", "diff")}
@@ -910,7 +980,32 @@ func TestCheck(t *testing.T) {
 					if L >= 2 && c.ReplayFile == "" {
 						from = L
 					}
-					r := ev(request{Oracle: oracle, Seq: seq, Known: knownSigs, CheckFrom: from})
+					var r reply
+					if from == L && L >= 2 {
+						// one execution serves both oracles (frame first, then the behaviour probes): the verdict
+						// of the other oracle is kept for that oracle's vector of the same sequence
+						if cached, ok := takeShared(key(oracle, seq)); ok {
+							r = cached
+						} else {
+							b := ev(request{Oracle: "both", Seq: seq, Known: knownSigs, CheckFrom: from})
+							switch {
+							case b.Other == nil: // internal error, already reported
+								r = b
+							case oracle == "frame":
+								putShared(key("diff", seq), *b.Other)
+								b.Other = nil
+								r = b
+							default:
+								r = *b.Other
+								b.Other = nil
+								putShared(key("frame", seq), b)
+							}
+							atomic.AddInt64(&executions, 1)
+						}
+					} else {
+						r = ev(request{Oracle: oracle, Seq: seq, Known: knownSigs, CheckFrom: from})
+						atomic.AddInt64(&executions, 1)
+					}
 					if r.Sig != "" {
 						vmu.Lock()
 						violated[key(oracle, seq)] = true
@@ -922,6 +1017,7 @@ func TestCheck(t *testing.T) {
 		harvest()
 	}
 	c.Extra("pruned_extensions_of_violating_prefix", pruned)
+	c.Extra("sequence_executions", executions)
 
 	if c.ReplayFile == "" {
 		c.Extra("c20_info", collectInfo(names[1:]))
@@ -1020,7 +1116,8 @@ func racePass(c *engine.Check) {
 		return
 	}
 	iters := engine.Pick(c, "6", "50")
-	env := append(os.Environ(), "C20_RACE_ITERS="+iters, "GORACE=halt_on_error=0")
+	fresh := engine.Pick(c, "2", "8")
+	env := append(os.Environ(), "C20_RACE_ITERS="+iters, "C20_RACE_FRESH="+fresh, "GORACE=halt_on_error=0")
 	if replayPair != "" {
 		env = append(env, "C20_RACE_PAIR="+replayPair)
 	}
@@ -1074,7 +1171,7 @@ func racePass(c *engine.Check) {
 		}
 	}
 	sites := world.SortedKeys(bySite)
-	c.Extra("race_pass", map[string]any{"pairs": pairs, "iterations_per_pair": iters, "data_race_reports": len(reports) - 1,
+	c.Extra("race_pass", map[string]any{"pairs": pairs, "iterations_per_pair": iters, "fresh_worlds_per_self_pair": fresh, "data_race_reports": len(reports) - 1,
 		"writer_sites": sites, "exit_error": fmt.Sprint(err),
 		"note": "free-running detector over every unordered pair of call operations on shared instances; a report is a violation, silence is not a proof"})
 	desc := func(pair string) func() any {
